@@ -105,6 +105,32 @@ fn named_circuits() -> Vec<Item> {
             Ok(())
         }),
     );
+    // rows sharing ONE selector tuple with every pattern of public inputs over three
+    // consecutive uses (none / non-zero / zero-valued), for three tuples that occur
+    // nowhere else in the circuit (the description stores each tuple once)
+    for (ti, tuple) in [(1i64, 1i64, 0i64), (2, 0, 1), (0, 3, -1)].into_iter().enumerate() {
+        for pat in 0..27usize {
+            let modes = [pat % 3, (pat / 3) % 3, pat / 9];
+            let name = format!("pi-pattern/tuple{}/{}", ti, modes.iter().map(|m| ["-", "P", "0"][*m]).collect::<String>());
+            push(
+                &name,
+                Prog::new(move |c| {
+                    let a = c.append_witness(fe(3));
+                    let b = c.append_witness(fe(4));
+                    for m in modes {
+                        let base = Constraint::new().left(fi(tuple.0 + 10)).right(fi(tuple.1 + 20)).mult(fi(tuple.2)).a(a).b(b);
+                        let k = match m {
+                            0 => base,
+                            1 => base.public(fe(77)),
+                            _ => base.public(zero()),
+                        };
+                        c.gate_add(k);
+                    }
+                    Ok(())
+                }),
+            );
+        }
+    }
     push(
         "zero-valued-public-inputs",
         Prog::new(|c| {
